@@ -265,3 +265,92 @@ func VerifC05_ClearChildren() {
 	vrt.Assert(vrt.TWellFormed(out, t, 3), "C05.clear.marshal.wellformed")
 	vrt.Assert(vrt.BytesEq(out, 0, len(out), want, 0, len(want)), "C05.clear.marshal.remaining-children")
 }
+
+func init() { vrt.Register("VerifC05_EditIntKey", VerifC05_EditIntKey) }
+
+// VerifC05_EditIntKey: after Load of a map<i64,byte> of CNT entries (keys symbolic in {0..7} + {0, 2^32}: keys
+// that agree modulo 2^32 and modulo the hash size are included), GetByInt / SetByInt address exactly the entry
+// of the full 64-bit key and Marshal returns the edited map.
+func VerifC05_EditIntKey() {
+	cnt := vrt.Param("CNT")
+	mode := vrt.Param("MODE")
+	keys := make([]int64, cnt)
+	vals := make([]byte, cnt)
+	b := vrt.PutMapHdr(nil, vrt.TI64, vrt.TBYTE, cnt)
+	for i := 0; i < cnt; i++ {
+		keys[i] = int64(vrt.U8()&7) | int64(vrt.U8()&1)<<32
+		vals[i] = vrt.U8()
+		b = append(vrt.PutBE64(b, keys[i]), vals[i])
+		for j := 0; j < i; j++ {
+			vrt.Assume(keys[j] != keys[i])
+		}
+	}
+	oa, ob := verifLowerThresholds()
+	defer verifRestoreThresholds(oa, ob)
+	opts := verifOpts(mode)
+	root := PathNode{Node: NewNode(thrift.MAP, b)}
+	vrt.Assert(root.Load(false, opts) == nil, "C05.intkey.load.noerror")
+	want := int64(vrt.U8()&7) | int64(vrt.U8()&1)<<32
+	idx := -1
+	for i := range keys {
+		if keys[i] == want {
+			idx = i
+		}
+	}
+	got := root.GetByInt(int(want), opts)
+	if idx >= 0 {
+		vrt.Reach("lookup.present")
+		vrt.Assert(got != nil, "C05.intkey.get.present.found")
+		if got != nil {
+			r := got.Node.Raw()
+			vrt.Assert(len(r) == 1 && r[0] == vals[idx], "C05.intkey.get.present.value")
+		}
+	} else {
+		vrt.Reach("lookup.absent")
+		vrt.Assert(got == nil, "C05.intkey.get.absent.nil")
+	}
+	nv := vrt.U8()
+	exist, err := root.SetByInt(int(want), NewNodeByte(nv), opts)
+	vrt.Assert(err == nil, "C05.intkey.set.noerror")
+	vrt.Assert(exist == (idx >= 0), "C05.intkey.set.exist-flag")
+	out, err := root.Marshal(opts)
+	vrt.Assert(err == nil, "C05.intkey.marshal.noerror")
+	if err != nil {
+		return
+	}
+	ents, ok := vrt.TChildren(out, vrt.TMAP, 2)
+	vrt.Assert(ok, "C05.intkey.marshal.wellformed")
+	if !ok {
+		return
+	}
+	vrt.Reach("marshalled")
+	n := cnt
+	if idx < 0 {
+		n++
+	}
+	vrt.Assert(len(ents) == n, "C05.intkey.marshal.count")
+	// every original entry is present with its (possibly edited) value, and the new key if inserted
+	for i := 0; i <= cnt; i++ {
+		var k int64
+		var v byte
+		if i < cnt {
+			k, v = keys[i], vals[i]
+			if i == idx {
+				v = nv
+			}
+		} else {
+			if idx >= 0 {
+				break
+			}
+			k, v = want, nv
+		}
+		kb := vrt.PutBE64(nil, k)
+		found := false
+		for _, e := range ents {
+			if vrt.BytesEq(out, e.KStart, e.KEnd, kb, 0, 8) && e.End-e.Start == 1 && out[e.Start] == v {
+				found = true
+			}
+		}
+		vrt.Assert(found, "C05.intkey.marshal.entry")
+	}
+}
